@@ -97,6 +97,19 @@ def run_property(pid, tier, seed):
     keys = props.keys_for(reg, pid)
     thorough = tier == "thorough"
     ctx = mp.get_context("fork")
+    # development aid for confirming many seeded changes (tools/confirm_seeds.sh): the bounded stand-ins run first and, when one of them already has a
+    # failing input, the proof side is skipped (the run is a violation either way; the evidence of such a run says so). Not used by the registered commands.
+    bounded_first = None
+    if os.environ.get("PYVC_BOUNDED_FIRST") == "1":
+        bounded_first = []
+        for b in spec.get("bounded", []):
+            try:
+                bounded_first.append(b(tier, seed))
+            except Exception as e:
+                bounded_first.append(dict(name=getattr(b, "__name__", "bounded"), status="crash", error=f"{type(e).__name__}: {e}", tb=traceback.format_exc()))
+        if any(b.get("violations") for b in bounded_first):
+            print(f"[{pid}] bounded-first: a bounded stand-in has a failing input; proof side skipped")
+            keys = []
     # the verification cone: seeds plus, transitively, every contract applied at a call site / lemma used
     gens, done, todo = [], set(), list(keys)
     while todo:
@@ -139,12 +152,14 @@ def run_property(pid, tier, seed):
                 results[i] = r2
     t_solve = time.time() - t0 - t_gen
     bounded = []
-    for b in spec.get("bounded", []):
+    for b in (spec.get("bounded", []) if bounded_first is None else []):
         try:
             bounded.append(b(tier, seed))
         except Exception as e:
             bounded.append(dict(name=getattr(b, "__name__", "bounded"), status="crash", error=f"{type(e).__name__}: {e}",
                                 tb=traceback.format_exc()))
+    if bounded_first is not None:
+        bounded = bounded_first
     print(f"[{pid}] phases: generate {t_gen:.1f}s, solve {t_solve:.1f}s, bounded {time.time() - t0 - t_gen - t_solve:.1f}s")
     slow = sorted(results, key=lambda r: -sum(b.get("seconds", 0) for b in r["backends"].values()))[:5]
     for r in slow:
